@@ -18,8 +18,9 @@ func init() {
 			"D1 iteration-order analysis of every `range` over a map in the functions reachable from the deterministic entry points (parse, compile, format, call-graph construction and JSON encoding, fork id construction, per-fork invocation recording): " +
 			"a loop passes when every effect of its body is order-insensitive (insertion into a map/set, counters, boolean accumulation, early exit with loop-invariant values, collect-then-sort); every other loop must be listed in the triage table of the checker with a reason why the order cannot reach an output, or is a violation; " +
 			"D1b no goroutine, clock, random or pid source is reachable from the syntax entry points; " +
-			"D2 a positive example (map loop writing to a builder) must be flagged on every run. " +
-			"NOT decided: order dependence through pointer identity, sort comparators that are not total orders, stability of topoSort.",
+			"D2 a positive example (map loop writing to a builder) must be flagged on every run, " +
+			"D3 sibling agreement of key orders: where pointer keys collected from a map are sorted by a comparator, no site orders a key type by a strict subset of the fields another site uses for the same type. " +
+			"NOT decided: order dependence through pointer identity, whether a comparator is a total order on the values it meets (only the sibling contradiction is), stability of topoSort.",
 		Assumptions: commonAssumptions,
 	}
 }
@@ -420,5 +421,6 @@ func runC10(c *an.Ctx) {
 		})
 	}
 	c.Pass("D1b", "no-goroutine-clock-random-in-syntax", 0, "scanned every in-scope function of package syntax")
+	ruleD3(c, fns, cfg)
 	c10PositiveExamples(c, cfg)
 }
